@@ -6,12 +6,15 @@ import (
 	"bufio"
 	"fmt"
 	"io"
+	"os"
 	"os/exec"
 	"sort"
 	"strconv"
 	"strings"
 	"time"
 )
+
+var slowQ = func() time.Duration { d, _ := time.ParseDuration(os.Getenv("GOSYM_SLOWQ")); return d }()
 
 type Verdict int
 
@@ -268,6 +271,14 @@ func (s *Solver) query(cs []*Term, vars []*Term) (Verdict, map[string]uint64) {
 		s.lastErr = line
 		s.restart("unexpected solver output: " + line)
 		return Unknown, nil
+	}
+	if slowQ > 0 && time.Since(t0) > slowQ {
+		var sb strings.Builder
+		for _, c := range cs {
+			sb.WriteString(s.ts.Show(c))
+			sb.WriteString(" ;; ")
+		}
+		fmt.Fprintf(os.Stderr, "SLOWQ %.1fms %s n=%d: %s\n", float64(time.Since(t0).Microseconds())/1000, line, len(cs), sb.String())
 	}
 	var model map[string]uint64
 	if v == Sat && len(vars) > 0 {
